@@ -8,6 +8,15 @@ REQ_SCRIPTS = ["release", "abort", "echo-release", "echo-abort", "idle"]
 ACC_SCRIPTS = ["none", "release", "abort", "echo-handler-release", "echo-handler-abort"]
 
 
+class UnprintableError(Exception):
+    """An exception whose text cannot be produced (C26: whatever a handler raises)."""
+
+    def __str__(self):
+        raise RuntimeError("no text for this exception")
+
+    __repr__ = __str__
+
+
 class Lifecycle(Scenario):
     """requestor user script x acceptor behaviour."""
 
@@ -61,6 +70,17 @@ class Lifecycle(Scenario):
             # after one raises, and the harness observes through handlers too
             def boom(event):
                 if not getattr(self, "raising_disabled", False):
+                    flavour = getattr(self, "exc_flavour", None)
+                    if flavour == "empty":
+                        raise ValueError()  # str(exc) == ""
+                    if flavour == "assert":
+                        assert event is None
+                    if flavour == "multiline":
+                        raise RuntimeError("first line\nsecond line\n")
+                    if flavour == "str-raises":
+                        raise UnprintableError()
+                    if flavour == "non-ascii":
+                        raise KeyError("é中😀 %s {0} %(x)s")
                     raise RuntimeError("notification handler failure")
 
             for name in self.raising:
